@@ -74,6 +74,20 @@ pub fn max_len_atoms() -> Vec<Val> {
     v
 }
 
+/// signed/unsigned 16-bit boundary: values and inner with-language fields of 32 767 and 32 768 octets
+pub fn len_boundary_atoms() -> Vec<Val> {
+    let mut v = vec![];
+    for l in [32767usize, 32768] {
+        v.push(Val::Octets(vec![b'o'; l]));
+        v.push(Val::Str(T_TEXT, vec![b't'; l]));
+        v.push(Val::Str(T_KEYWORD, vec![b'k'; l]));
+        v.push(Val::TextLang(b"en".to_vec(), vec![b'z'; l]));
+        v.push(Val::NameLang(vec![b'l'; l], b"n".to_vec()));
+        v.push(Val::Unknown(0x11, vec![0xaa; l]));
+    }
+    v
+}
+
 pub fn leaf(i: u32) -> Val {
     match i % 3 {
         0 => Val::Int(1),
@@ -318,9 +332,17 @@ pub fn tok_bytes(t: usize) -> &'static [u8] {
         13 => &[0x37, 0, 0, 0, 0],
         14 => &[0x13, 0, 1, b'o', 0, 0],
         15 => &[0x11, 0, 0, 0, 1, 0xff],
+        // extended alphabet (NTOK_EXT): the named / unnamed variants the 16-token alphabet lacks
+        16 => &[0x4a, 0, 1, b'x', 0, 1, b'm'],
+        17 => &[0x37, 0, 1, b'e', 0, 0],
+        18 => &[0x13, 0, 0, 0, 0],
+        19 => &[0x11, 0, 1, b'u', 0, 1, 0xff],
         _ => unreachable!(),
     }
 }
+
+pub const NTOK_EXT: usize = 20;
+pub const TOK_NAMES_EXT: [&str; 4] = ["mem:m(named x)", "endcol(named e)", "+noval", "x11:u"];
 
 pub const TOK_HEADER: [u8; 8] = [2, 0, 0, 0x0b, 0, 0, 0, 7];
 
@@ -357,7 +379,24 @@ pub fn tok_msg(seq: &[usize]) -> Vec<u8> {
 }
 
 pub fn tok_names(seq: &[usize]) -> String {
-    seq.iter().map(|&t| TOK_NAMES[t]).collect::<Vec<_>>().join(" ")
+    seq.iter().map(|&t| if t < NTOK { TOK_NAMES[t] } else { TOK_NAMES_EXT[t - NTOK] }).collect::<Vec<_>>().join(" ")
+}
+
+/// all words over the EXTENDED 20-token alphabet
+pub fn tok_words_ext(min_len: usize, max_len: usize) -> Vec<Vec<usize>> {
+    let mut out = vec![];
+    for l in min_len..=max_len {
+        for idx in 0..(NTOK_EXT as u64).pow(l as u32) {
+            let mut w = vec![0usize; l];
+            let mut x = idx;
+            for i in (0..l).rev() {
+                w[i] = (x % NTOK_EXT as u64) as usize;
+                x /= NTOK_EXT as u64;
+            }
+            out.push(w);
+        }
+    }
+    out
 }
 
 // ------------------------------------------------------------------ periodic families
